@@ -102,15 +102,20 @@ Definition ser_point (pt : mpoint) : list N :=
 
 (* metadata/mod.rs:2010 SeekTable::to_writer: once a defined point has been seen, every later
    defined point must have a strictly larger sample offset (placeholders are passed over) *)
+Definition U64_MAX : N := 18446744073709551615.
 Fixpoint seektable_ok (last : option N) (l : list mpoint) : bool :=
   match l with
   | [] => true
   | pt :: r =>
       match last with
-      | None => seektable_ok (match pt with Defined o _ _ => Some o | Placeholder => None end) r
+      | None =>
+          match pt with
+          | Defined o _ _ => negb (o =? U64_MAX) && seektable_ok (Some o) r   (* u64::MAX marks a placeholder *)
+          | Placeholder => seektable_ok None r
+          end
       | Some lo =>
           match pt with
-          | Defined o _ _ => (lo <? o) && seektable_ok (Some o) r
+          | Defined o _ _ => negb (o =? U64_MAX) && ((lo <? o) && seektable_ok (Some o) r)
           | Placeholder => seektable_ok last r
           end
       end
